@@ -423,6 +423,8 @@ def run_case(case, workdir):
 
 
 def shrink_candidates(case):
+    if case.get("kind") == "flowpre":
+        return []
     scn = scenario_of(case)
     base = {k: v for k, v in case.items() if k != "scenario"}
     return [{**base, "scenario": s} for s in shrink_scenario_candidates(scn) if s["checkpoint"]["mode"] == "none" and s["preconditioning"] == scn["preconditioning"]]
